@@ -216,4 +216,44 @@ func runC39(p *core.Prog, r *core.Report) {
 		}
 		r4.Check(ok && n > 0, ctor+"#converter-stored-unchanged", p.Pos(fn.Pos()), "the processor keeps the converter it was given", ctor+" does not store the given converter as it is (wrapped or replaced)")
 	}
+	// ---- R5 nothing is added to an amount on its way through a processor
+	r5 := r.Rule("C39.R5", "the inner ring processors convert an event's amount as it came: each ToFixed8 / ToBalancePrecision call gets the event's Amount() itself and its result goes into the outgoing call unchanged — no arithmetic before or after the conversion (rounding up before the narrowing creates value on the other chain)", 4)
+	nConv := 0
+	for _, pk := range []string{"pkg/innerring/processors/balance", "pkg/innerring/processors/neofs"} {
+		for _, cs := range core.CallSites(p.FuncsIn(pk), func(s core.Site) bool {
+			if !s.Call.Common().IsInvoke() {
+				return false
+			}
+			m := s.Call.Common().Method.Name()
+			return m == "ToFixed8" || m == "ToBalancePrecision"
+		}) {
+			nConv++
+			a := cs.Call.Common().Args[0]
+			asIs := false
+			if c, ok := a.(ssa.CallInstruction); ok {
+				if c.Common().IsInvoke() {
+					asIs = c.Common().Method.Name() == "Amount"
+				} else if cal := core.StaticCallee(c); cal != nil {
+					asIs = cal.Name() == "Amount"
+				}
+			}
+			after := true
+			if v := cs.Call.Value(); v != nil && v.Referrers() != nil {
+				for _, ref := range *v.Referrers() {
+					switch ref.(type) {
+					case ssa.CallInstruction, *ssa.DebugRef, *ssa.Store, *ssa.MakeInterface:
+					default:
+						after = false
+					}
+				}
+			}
+			r5.Check(asIs && after, core.FuncName(core.Outer(cs.Fn))+"#"+cs.Call.Common().Method.Name(), p.InstrPos(cs.Call), "converts the event's amount itself and passes the result on",
+				"the amount is changed around its conversion (the converter does not get the event's Amount() as it is, or its result is computed with before being sent): e.g. adding half a unit before narrowing turns 'never more than the original' into rounding to nearest")
+		}
+	}
+	if nConv == 0 {
+		r.Fatalf("C39.R5: no conversion call found in the balance / neofs processors")
+	}
+	r.Explain += " (R5) the four conversion calls of the balance and neofs processors take the event's Amount() directly and hand the result directly to the contract call."
+
 }
